@@ -10,6 +10,8 @@ op lines (same as harness/c04.cpp):
   oracle <ops>    -> events of the reference execution (Cppcheck.LeakStraight.oracle)
       ops    = space separated  a<x> (alloc)  f<x> (free)  u<x> (use)  s<x>,<y> (px = py)  r<x> (return px)  z (return 0)
       answer = `-` | <kind>:<x>@<pos>;...    kind = memleak doubleFree deallocuse deallocret uninit
+  lib <block>* ## <name>*       -> <name>:<alloc group | ->:<dealloc group | ->  per name (Cppcheck.LibGroups.load from the empty library)
+      block = <m|r>;<alloc names, comma separated | ->;<dealloc elements separated by `|`, names by comma>
 -/
 namespace Driver.C04
 
@@ -152,8 +154,28 @@ open Cppcheck.LeakStraight in
 def showReps (rs : List Rep) : String :=
   if rs.isEmpty then "-" else ";".intercalate (rs.map fun r => kindStr r.kind ++ ":" ++ toString r.var ++ "@" ++ toString r.pos)
 
+open Cppcheck.LibGroups in
+def parseBlock (w : String) : Option Block :=
+  match w.splitOn ";" with
+  | [k, a, d] =>
+    let names (t : String) : List String := if t == "-" then [] else (t.splitOn ",").filter (· ≠ "")
+    some { resource := k == "r", allocs := names a, deallocs := (d.splitOn "|").map names }
+  | _ => none
+
+open Cppcheck.LibGroups in
+def libOp (ws : List String) : String :=
+  let blocksW := ws.takeWhile (· ≠ "##")
+  let names := (ws.dropWhile (· ≠ "##")).drop 1
+  match blocksW.mapM parseBlock with
+  | none => "bad-op"
+  | some bs =>
+    let st := load empty bs
+    let sh (o : Option Nat) : String := match o with | some g => toString g | none => "-"
+    " ".intercalate (names.map fun n => n ++ "=" ++ sh (allocGroup st n) ++ "/" ++ sh (deallocGroup st n))
+
 def step (line : String) : String :=
   match fields line with
+  | "lib" :: rest => libOp rest
   | "sev" :: rest => sev rest
   | "leak" :: rest =>
     match parseOps rest with
